@@ -5,7 +5,7 @@ W=${SCRATCH:-/tmp/w0}
 [ -d "$W" ] || git -C /repo worktree add -q --detach "$W" HEAD
 ids="$@"; [ -z "$ids" ] && ids=$(ls /verif/seeded | grep -v SUMMARY)
 for id in $ids; do
-  git -C "$W" checkout -q --detach "$(git -C /repo rev-parse HEAD)" && git -C "$W" checkout -q -- . && git -C "$W" clean -qfd
+  git -C "$W" checkout -q -- . ; git -C "$W" clean -qfd; git -C "$W" checkout -q --detach "$(git -C /repo rev-parse HEAD)"
   if ! git -C "$W" apply /verif/seeded/$id/patch.diff 2>/dev/null; then echo "$id: PATCH-DOES-NOT-APPLY"; continue; fi
   own=$(python3 -c "import json;print(json.load(open('/verif/seeded/$id/meta.json'))['breaks_property'])")
   out=$(${WASPCHECK:-/verif/bin/waspcheck} -p all -repo "$W" -out /tmp/ev_seed 2>&1 | grep -E "^  rule " | awk '{print $2}' | sort -u | tr '\n' ' ')
